@@ -48,11 +48,16 @@ def _sha(paths_root_pairs):
                 h.update(b'\0')
     return h.hexdigest()[:20]
 
+# The library selects some code by compiler version macros.  The suite is built with g++ 12, for which compiler_support.hpp turns on the
+# std::from_chars route of decstr_to_double (__GNUC__ >= 11); clang 14 reports __GNUC__ 4 and would take the strtod fallback.  The
+# analysed configuration is made the shipped one (libstdc++ 12 provides from_chars for double under clang as well).
+CONFIG_FLAGS = ['-DJSONCONS_HAS_STD_FROM_CHARS=1']
+
 _tree_hash = None
 def tree_hash():
     global _tree_hash
     if _tree_hash is None:
-        _tree_hash = _sha([(INCLUDE, None), (DRIVERS, '.cpp'), (PLUGIN_SRC, None)]) + hashlib.sha256(repr(sorted(UNITS.items())).encode()).hexdigest()[:6]
+        _tree_hash = _sha([(INCLUDE, None), (DRIVERS, '.cpp'), (PLUGIN_SRC, None)]) + hashlib.sha256((repr(sorted(UNITS.items())) + repr(CONFIG_FLAGS)).encode()).hexdigest()[:6]
     return _tree_hash
 
 def cache_root():
@@ -95,7 +100,7 @@ def build_plugin(force=False):
         fcntl.flock(lock, fcntl.LOCK_UN)
 
 def clang_cmd(driver, out, only, tier):
-    cmd = ['clang++', '-std=gnu++17', '-fsyntax-only', '-UNDEBUG', '-w', '-ferror-limit=5',
+    cmd = ['clang++', '-std=gnu++17', '-fsyntax-only', '-UNDEBUG', '-w', '-ferror-limit=5'] + CONFIG_FLAGS + [
            '-I', INCLUDE, '-I', VERIF,
            '-fplugin=' + PLUGIN_SO,
            '-Xclang', '-plugin-arg-jcsa-facts', '-Xclang', 'out=' + out,
